@@ -741,7 +741,16 @@ fn gen_c14(rng: &mut Rng, tier: &str, emit: Emit) {
 }
 
 fn gen_c15(rng: &mut Rng, tier: &str, emit: Emit) {
-    let bad = ['2', 'g', 'G', ' ', '-', '+', 'x', '_', 'é', '１', '𝟏', 'z', '/', ':', '@', '`'];
+    let mut bad: Vec<char> = vec!['2', 'g', 'G', ' ', '-', '+', 'x', '_', 'é', '１', '𝟏', 'z', '/', ':', '@', '`', '٣', 'Ａ'];
+    // non-ASCII characters whose low code-point byte (or low 7 bits) is an ASCII digit / hex letter: a decoder that
+    // narrows `char` to a byte would accept them
+    for d in ['0', '1', '7', '9', 'a', 'c', 'f', 'A', 'F'] {
+        for hi in [0x100u32, 0x400, 0xFF00, 0x10000, 0x80] {
+            if let Some(c) = char::from_u32(hi + d as u32) {
+                bad.push(c);
+            }
+        }
+    }
     for ty in TYPES {
         let cap = ty.cap().unwrap_or(MAXD);
         for hex in [false, true] {
